@@ -6,6 +6,7 @@ import { spawnSync } from 'node:child_process'
 import { stripTypeScriptTypes } from 'node:module'
 import { build, sourceHash } from './build_runtime.mjs'
 import { same, show } from './expr.mjs'
+import { PROP_COMPONENT_PROPS } from './tmodel.mjs'
 
 export const VERIF = path.resolve(path.dirname(new URL(import.meta.url).pathname), '..', '..')
 export const REPO = process.env.VERIF_REPO || '/repo'
@@ -213,6 +214,7 @@ export function snapshot(ge, parent, tr, opts = {}) {
       children: [],
     }
     node.childNodes.forEach((ch) => visit(ch, el.children))
+    if (node instanceof ge.Component && node.is === 'cmp/x-a') el.props = Object.fromEntries(PROP_COMPONENT_PROPS.map((p) => [p, node.data[p]]))
     if (opts.shadow && node instanceof ge.Component) {
       el.shadow = snapshot(ge, node.getShadowRoot(), opts.shadowTrace ? opts.shadowTrace(node) : null, opts)
     }
@@ -291,9 +293,22 @@ export function collectWarnings(ge, tr) {
   return () => ge.removeGlobalWarningListener(l)
 }
 
+/** `<x-a>` as a real child component (opts.propComponents): any-typed properties for the attribute names the
+ *  generator uses, so that the component branch of the runtime (camel-casing, replaceProperty and its flush,
+ *  model / change listeners) is exercised; its property values are part of the snapshot. It has no template. */
+export const PROP_COMPONENT_TAG = 'x-a'
+export function definePropComponent(ge, space) {
+  return space.defineComponent({
+    is: 'cmp/x-a',
+    options: { dataDeepCopy: ge.DeepCopyKind.None, propertyPassingDeepCopy: ge.DeepCopyKind.None },
+    properties: Object.fromEntries(PROP_COMPONENT_PROPS.map((p) => [p, null])),
+  })
+}
+
 /** Create a root component from an instrumented template. */
 export function createRoot(ge, template, data, opts = {}) {
   const space = opts.space || new ge.ComponentSpace()
+  if (opts.propComponents) opts = { ...opts, using: { ...(opts.using || {}), [PROP_COMPONENT_TAG]: definePropComponent(ge, space).general() } }
   const def = space.defineComponent({
     options: { dataDeepCopy: ge.DeepCopyKind.None, propertyPassingDeepCopy: ge.DeepCopyKind.None, ...(opts.options || {}) },
     using: opts.using || {},
